@@ -283,6 +283,25 @@ func c03Trips3(text []byte, table map[string][]byte) any {
 			*stage = "marshal"
 			return json.Marshal(d)
 		})
+		// a loader that reads the root document itself through its reader (LoadFromURI)
+		step("jl", func(stage *string) ([]byte, error) {
+			*stage = "load"
+			withRoot := map[string][]byte{c03Location(0).String(): text}
+			for k, v := range table {
+				withRoot[k] = v
+			}
+			d, err := c03Loader(withRoot).LoadFromURI(c03Location(0))
+			if err != nil {
+				return nil, err
+			}
+			*stage = "marshal"
+			return json.Marshal(d)
+		})
+		// the T by value (json.Marshal(*doc), a T embedded by value in another struct)
+		step("jv", func(stage *string) ([]byte, error) {
+			*stage = "marshal"
+			return json.Marshal(*doc1)
+		})
 		// other writers of the parsed input: the MarshalJSON method itself, and the value MarshalYAML returns
 		// (what a YAML encoder is handed) written as JSON
 		step("jm", func(stage *string) ([]byte, error) {
